@@ -64,6 +64,12 @@ func genPair(t *rapid.T, cx *h.Ctx, disjointMembers bool, stats *gen.Stats) Pair
 		b = a.Clone()
 		fam = "identical"
 	}
+	// repeated consecutive vertices (valid; zero-length segments carry no points of their own): first, middle,
+	// last/closing vertex of drawn lines and rings
+	if rapid.IntRange(0, 4).Draw(t, "dups") == 0 {
+		a = dupVertices(a, rapid.SliceOfN(rapid.IntRange(0, 40), 1, 6).Draw(t, "dupseedsA"))
+		b = dupVertices(b, rapid.SliceOfN(rapid.IntRange(0, 40), 1, 6).Draw(t, "dupseedsB"))
+	}
 	m := gen.DrawIntMap(t, -3, 2*kmax+3)
 	pc := PairCase{A: m.Apply(a), B: m.Apply(b), Family: fam}
 	if rapid.IntRange(0, 4).Draw(t, "floatpair") == 0 {
